@@ -64,6 +64,15 @@ CHECKS = {
    "A transmitter model (CRC-16/X.25, LSB-first, stuffing, 1-3 opening flags, shared/separate flags, payloads 0..max+2 incl. stuffing-heavy contents) feeds the real HdlcDeframer through the drip-feed rig with channel faults (random noise prefix, prefixes ending in a partial flag, 1-2 flipped bits in a chosen frame) and seeded min/max/checksum/fix settings. The output list must have an order-preserving explanation: every MUST frame delivered once, no flipped frame delivered (or only repaired to the original), nothing with a failing FCS according to a spec-level reference deframer, nothing unexplained on a clean channel, sizes within bounds.",
    "Boundary sizes, empty frames with min_size 0, frames whose delimiting flag is overlapped by another flag pattern, and reference-valid noise-born frames are MAY.",
    "deterministic simulation: channel fault injection (noise, bit flips) x seeded delivery schedules, reference-deframer oracle", "5/C13"),
+
+ "C15": ("rig", "fault_enumeration",
+   "Enumerated: every burst of length 0..6 over {-1,0,1,NaN,inf} through Midpointer and Wpcr, every AU header with data offset 0..64 x 6 encodings x 3 channel counts through AuDecode. Seeded: one corruption fault per run on a valid artefact (AU truncation/field mutation/bit flips/garbage; SigMF metadata with missing or mistyped fields; archives truncated, with zero-length/duplicate/non-regular/missing members, bit-flipped, garbage) or a hostile sample/bit/packet stream (NaN, infinities, denormals, huge values, wrong-typed burst tags), delivered through the drip-feed rig. Only Ok/Err outcomes are acceptable: no panic, no stuck packet, window accounting intact.",
+   "Bit inputs stay in {0,1}; constructor preconditions respected; Sample::parse only sees correctly sized slices.",
+   "fault enumeration + seeded corruption faults under simulated delivery; crash/hang oracle", "5/C15"),
+ "C16": ("rig", "exploration",
+   "Enumerated: all 10935 length-7 call sequences over {again, done, count} from finite(0..3)/infinite against a reference counter. Seeded: VectorSource, FileSource and SigMFSource (recording and tar archive with seeded member order) x data length around and beyond the stream capacity x repeat {0,1,2,3,infinite} under a seeded downstream drain schedule with full outputs and wrap offsets: emitted == data^repeat, EOF exactly then (within 3 calls that had output room), infinite never EOF, VectorSource marker tags once per repetition.",
+   "Files hold whole samples; a source is not called again after EOF.",
+   "deterministic simulation: seeded downstream consumption schedules + exhaustive small API histories vs reference counter", "5/C16"),
 }
 PENDING_REASON = "check not built yet in this session (planned in DESIGN.md section 5); not a claim that the property is out of reach"
 
@@ -99,7 +108,7 @@ def main():
         "engines": [
             {"name": "mtsim", "path": "sim/src/rt.rs, sim/src/mt.rs, sim/src/graphs.rs", "serves_properties": ["C03", "C04", "C05", "C07"], "kind_free_text": "baton scheduler over real OS threads behind the std shim: one seeded decision per lock/unlock/wait/notify/time-out/spawn/join/atomic point; real MTGraph and streams"},
             {"name": "graphsim", "path": "sim/src/graphsim.rs", "serves_properties": ["C06", "C07"], "kind_free_text": "real Graph::run under virtual time on generated graphs, add-order permutations"},
-            {"name": "rig", "path": "sim/src/rig.rs, sim/src/blocks.rs, sim/src/rigcheck.rs", "serves_properties": ["C08", "C09", "C10", "C11", "C12", "C13"], "kind_free_text": "drip-feed environment for one block: harness owns all peers of a real block on real streams; seeded feed/drain/work schedules; virtual time"},
+            {"name": "rig", "path": "sim/src/rig.rs, sim/src/blocks.rs, sim/src/rigcheck.rs", "serves_properties": ["C08", "C09", "C10", "C11", "C12", "C13", "C15", "C16"], "kind_free_text": "drip-feed environment for one block: harness owns all peers of a real block on real streams; seeded feed/drain/work schedules; virtual time"},
             {"name": "bufsim", "path": "sim/src/bufsim.rs", "serves_properties": ["C01", "C02"], "kind_free_text": "seeded single-thread op-history simulator over Buffer<T> with a deque reference model"},
         ],
         "checks": checks,
